@@ -1246,7 +1246,7 @@ pub fn run_c11(tier: Tier) -> i32 {
     for g in ["stream-dropped-with-replies-still-owed", "peer-hangs-up-while-items-are-held", "replies-padded-with-extra-NULs", "item-held-across-a-later-read", "item-held-while-rest-is-buffered", "replies-in-separate-reads", "replies-coalesced-in-one-read", "more-call-with-continuing-replies"] {
         rep.require_goal(g);
     }
-    let wall = std::time::Duration::from_secs(tier.pick(60, 600));
+    let wall = std::time::Duration::from_secs(tier.pick(60, 900));
     let plan: Vec<(&str, ChainH, u32)> = match tier {
         Tier::Quick => vec![
             ("hold-inter/<=2calls", ChainH { max_calls: 2, cuts: Cuts::FreeInter, hold: true, sizes: vec![20, 300], pend: false, max_cont: 2, pad: true }, 1),
